@@ -441,7 +441,8 @@ class MeshTri1(MeshSimplex, Mesh2D):
                 ix = np.arange(nelems, dtype=np.int32)
 
             X = mapping.invF(np.array([x, y])[:, None], ix)
-            eps = np.finfo(X.dtype).eps
+            # allow for the round-off of the inverse mapping
+            eps = 1e3 * np.finfo(X.dtype).eps
             inside = ((X[0] >= -eps) *
                       (X[1] >= -eps) *
                       (1 - X[0] - X[1] >= -eps))
